@@ -43,6 +43,14 @@ Theorem C07_go_hostname_is_rfc_host : forall u url sch ui h port rest,
 Proof. exact go_rfc_agree. Qed.
 Print Assumptions C07_go_hostname_is_rfc_host.
 
+(* browsers (WHATWG) read a backslash in an http(s) URL as a slash: an accepted URI has none in
+   its authority, so that difference cannot move the authority boundary *)
+Theorem C07_no_backslash_in_authority : forall uri cfg sch ui h port rest,
+  valid_redirect_uri uri (norm_domains cfg) = true -> rfc_split uri sch ui h port rest ->
+  ~ In c_bslash (opt_userinfo ui ++ h ++ opt_port port).
+Proof. exact accepted_no_backslash. Qed.
+Print Assumptions C07_no_backslash_in_authority.
+
 (* the hypotheses are satisfiable: a proxy callback URI with userinfo and port is accepted and
    has a reading whose host is app.example.com *)
 Example C07_host_in_domain_nonvacuous :
